@@ -164,4 +164,81 @@ def indexOfNode (l : List Nat) (x : Nat) : Option Nat :=
   let i := l.takeWhile (· != x) |>.length
   if i < l.length then some i else none
 
+
+/-! ## the BLAKE3 / bao tree of a blob, on chunk intervals -/
+
+/-- bytes of the chunk interval `[a, b)` of blob `d` -/
+def slice (d : List UInt8) (a b : Nat) : List UInt8 := (d.drop (a * 1024)).take ((b - a) * 1024)
+
+/-- chaining value of the chunk interval `[a, b)` (clipped to the blob by `slice`) -/
+def cv (hf : HashFns H) (d : List UInt8) (a b : Nat) (isRoot : Bool) : H :=
+  hashSubtree hf a (slice d a b) isRoot
+
+/-- root hash of a blob -/
+def root (hf : HashFns H) (d : List UInt8) : H := cv hf d 0 (nChunks d.length) true
+
+/-- the two child chaining values of node `(k, L)` of blob `d` (node must exist: `midOf k L < n`) -/
+def pair (hf : HashFns H) (d : List UInt8) (k L : Nat) : H × H :=
+  let n := nChunks d.length
+  (cv hf d (startOf k L) (midOf k L) false, cv hf d (midOf k L) (min (endOf k L) n) false)
+
+/-- the 64 stored bytes of a node -/
+def pairBytes (hf : HashFns H) (d : List UInt8) (x : Nat) : List UInt8 :=
+  let p := pair hf d (indexOf x) (levelOf x)
+  hf.toBytes p.1 ++ hf.toBytes p.2
+
+/-- pre-order outboard: the pairs of the persisted nodes in pre-order -/
+def preOutboard (hf : HashFns H) (d : List UInt8) (bs : Nat) : List UInt8 :=
+  (persistedPre d.length bs).flatMap (pairBytes hf d)
+
+/-- post-order outboard -/
+def postOutboard (hf : HashFns H) (d : List UInt8) (bs : Nat) : List UInt8 :=
+  (persistedPost d.length bs).flatMap (pairBytes hf d)
+
+/-- some chunk of `[a, b)` is selected -/
+def anySel (sel : Nat → Bool) (a b : Nat) : Bool := (List.range (b - a)).any fun i => sel (a + i)
+
+/-- every chunk of `[a, b)` is selected -/
+def allSel (sel : Nat → Bool) (a b : Nat) : Bool := (List.range (b - a)).all fun i => sel (a + i)
+
+/-- one element of the honest item stream -/
+inductive SItem
+  | parent (node : Nat) (bytes : List UInt8)
+  | leaf (startChunk : Nat) (bytes : List UInt8)
+deriving Repr, DecidableEq, BEq
+
+/--
+The honest encoding of the selection `sel` of blob `d` at block size `bs`, as items, for the
+interval of height `h` and index `j` (chunks `[j·2^h, (j+1)·2^h) ∩ [0, n)`):
+nothing if the selection misses the interval; the chunk for a single chunk; otherwise the
+hash pair (omitted iff the interval is completely selected and has at most `2^bs` chunks)
+followed by the encodings of the two halves.  Leaves inside a fully selected group are
+merged into one leaf item by `mergeLeaves`.
+-/
+def itemsI (hf : HashFns H) (d : List UInt8) (n bs : Nat) (sel : Nat → Bool) : Nat → Nat → List SItem
+  | 0, j => if sel j then [.leaf j (slice d j (j + 1))] else []
+  | h + 1, j =>
+    let start := j * 2 ^ (h + 1)
+    let mid := start + 2 ^ h
+    let stop := min ((j + 1) * 2 ^ (h + 1)) n
+    if !anySel sel start stop then []
+    else if mid ≥ n then itemsI hf d n bs sel h (2 * j)
+    else if allSel sel start stop && decide (h + 1 ≤ bs) then [.leaf start (slice d start stop)]
+    else
+      .parent (nodeOf j h) (hf.toBytes (cv hf d start mid false) ++ hf.toBytes (cv hf d mid stop false))
+        :: (itemsI hf d n bs sel h (2 * j) ++ itemsI hf d n bs sel h (2 * j + 1))
+
+def SItem.bytes : SItem → List UInt8
+  | .parent _ b => b
+  | .leaf _ b => b
+
+/-- `Spec.items`: the honest item stream of query `q` -/
+def items (hf : HashFns H) (d : List UInt8) (bs : Nat) (q : Ranges) : List SItem :=
+  let n := nChunks d.length
+  itemsI hf d n bs (selected d.length q) (log2ceil 64 n) 0
+
+/-- `Spec.encode`: the honest encoding -/
+def encode (hf : HashFns H) (d : List UInt8) (bs : Nat) (q : Ranges) : List UInt8 :=
+  (items hf d bs q).flatMap SItem.bytes
+
 end Bao.Spec
